@@ -36,6 +36,8 @@ GNext ==
         \/ FastMiss(t) /\ Step(t, "FastMiss")
         \/ Exec(t) /\ Step(t, "Exec")
         \/ Publish(t) /\ Step(t, "Publish")
+        \/ Abandon(t) /\ Step(t, "AbandonCancel")
+        \/ Abandon(t) /\ Step(t, "AbandonPanic")
 GSpec == GInit /\ [][GNext]_gvars
 
 View == vars
